@@ -19,6 +19,10 @@ fn main() {
 		std::process::exit(2);
 	}
 	let id = args[1].clone();
+	if id == "C03-child" {
+		monitor::install_panic_hook();
+		std::process::exit(check::c03::child(&args[2..]));
+	}
 	let mut cfg = Config {
 		tier: Tier::Quick,
 		seed: std::env::var("VERIF_SEED").ok().and_then(|s| s.parse().ok()).unwrap_or(20260927),
